@@ -504,15 +504,18 @@ pub fn oracle_c10(cfg: &EwCfg, tr: &EwTrace) -> Vec<Violation> {
             let mut hs = Some(Retry { next: start.t_ms + 2000, remaining: 10 });
             let mut active_since: Option<u64> = None; let mut last_heard: u64 = 0; let mut closing: Option<Retry> = None; let mut done = false;
             let mut disc_called = false;
+            // a step processes everything that arrived since the previous step of this endpoint (it may have skipped rounds)
+            let mut prev_step: Option<usize> = None;
             for o in tr.obs.iter().filter(|o| o.round >= start.round && o.round < end_round) {
                 if done { break; }
                 if !o.c_stepped[i] { continue; }
                 let r = o.round; let t = o.t_ms;
+                let since = prev_step.map_or(0, |p| p + 1); prev_step = Some(r);
                 let evs: Vec<&EvRec> = tr.cev[i].iter().filter(|e| e.gen == g && e.round == r).collect();
                 let timeout_now = evs.iter().any(|e| e.ev == Ev::Error(0));
                 let sent_syn = tr.wire.iter().filter(|d| !d.injected && d.src == caddr(i) && d.by_step && d.sent_round == r && matches!(d.frame, Some(Frame::HandshakeSynFrame(_)))).count();
                 let sent_disc = tr.wire.iter().enumerate().filter(|(wi, d)| !d.injected && d.src == caddr(i) && d.by_step && d.sent_round == r && matches!(d.frame, Some(Frame::DisconnectFrame(_))) && !reack_copy(tr, *wi)).count();
-                let heard = tr.delivered.iter().any(|x| x.round == r && { let d = &tr.wire[x.dg]; d.dst == caddr(i) && d.src == saddr() && is_conn_frame(&d.frame) });
+                let heard = tr.delivered.iter().any(|x| x.round >= since && x.round <= r && { let d = &tr.wire[x.dg]; d.dst == caddr(i) && d.src == saddr() && is_conn_frame(&d.frame) });
                 for c in tr.calls.iter().filter(|c| c.round == r && c.gen == g) { if matches!(c.act, Act::CDisconnect(k) | Act::CDisconnectNow(k) if k == i) { disc_called = true; } }
                 if let Some(h) = hs.as_mut() {
                     if evs.iter().any(|e| e.ev == Ev::Connect) { hs = None; active_since = Some(t); last_heard = t; }
@@ -562,14 +565,16 @@ pub fn oracle_c10(cfg: &EwCfg, tr: &EwTrace) -> Vec<Violation> {
         // ---------------- server side for this address
         let ts_cfg = cfg.server.active_timeout_ms;
         let mut conn: Option<u64> = None; let mut last_heard = 0u64;
+        let mut prev_step: Option<usize> = None;
         for o in tr.obs.iter() {
             if !o.s_stepped { continue; }
             let r = o.round; let t = o.t_ms;
+            let since = prev_step.map_or(0, |p| p + 1); prev_step = Some(r);
             // drop and disconnect_now end the connection at once; a flushing disconnect() leaves it established (and subject to the active
             // time-out) until the disconnect request itself is transmitted
             for c in tr.calls.iter().filter(|c| c.round == r) { if matches!(c.act, Act::SDrop(k) | Act::SDisconnectNow(k) if k == i) { conn = None; } }
             if tr.wire.iter().any(|d| !d.injected && d.src == saddr() && d.dst == caddr(i) && d.sent_round == r && matches!(d.frame, Some(Frame::DisconnectFrame(_)))) { conn = None; }
-            let heard = tr.delivered.iter().any(|x| x.round == r && { let d = &tr.wire[x.dg]; d.src == caddr(i) && d.dst == saddr() && is_conn_frame(&d.frame) });
+            let heard = tr.delivered.iter().any(|x| x.round >= since && x.round <= r && { let d = &tr.wire[x.dg]; d.src == caddr(i) && d.dst == saddr() && is_conn_frame(&d.frame) });
             let was_conn = conn.is_some();
             let mut timeout_now = false; let mut ended = false;
             // events of this step in the order the server produced them
